@@ -424,7 +424,7 @@ func noteProgress(out string, i int, ts taggedScen) {
 // specName: the predicate the case files apply for a property
 func specName(prop string) string {
 	switch prop {
-	case "C02", "C17":
+	case "C02", "C17", "C05":
 		return "spec_" + prop + "x"
 	}
 	return "spec_" + prop
